@@ -1,9 +1,9 @@
 """C07 — spike-cluster index utilities partition the spikes (DESIGN.md §5 C07)."""
 import itertools
-from fractions import Fraction
 import numpy as np
 from . import common as C
 from . import dataset as D
+from . import dense_common as DC
 
 PID = 'C07'
 PARALLEL = False
@@ -11,7 +11,7 @@ BATCH = 3000
 BUDGET_S = {'quick': 70, 'thorough': 900}
 DT = {'int32': (32, True), 'int64': (64, True), 'uint16': (16, False), 'uint32': (32, False)}
 RULE = ('exhaustive: all assignment vectors of length <= L over the id alphabet {0,2,3,7} x dtypes '
-        'int32/int64/uint16/uint32 x with/without spike-id vector; requested cluster lists unsorted '
+        'int32/int64/uint16/uint32 x with/without spike-id vector (increasing, and unsorted / repeated ids); requested cluster lists unsorted '
         'and partly absent; unsorted lookups; then random long vectors; TemplateModel queries on '
         'generated datasets. non-trivial = at least two spikes and two distinct ids')
 ASSUMPTIONS = ['grouped_mean: integer-valued data so that the sum is exact; the single float division '
@@ -55,16 +55,15 @@ def impl(case):
                 nt = int(m.n_templates)
                 # the same queries after the assignments were changed in memory (no save): they
                 # must follow the array helpers on the CURRENT assignments
+                # (compared with the Lean model on the reversed assignment vector, second query)
                 new_sc = np.asarray(m.spike_clusters).copy()[::-1].copy()
                 m.spike_clusters = new_sc
-                inmem_ok = True
+                out2 = []
                 for c in case['cs']:
-                    exp = A._spikes_in_clusters(new_sc, [c])
-                    got = m.get_cluster_spikes(c)
-                    cnt = m.get_template_counts(c)
-                    exp_cnt = np.bincount(np.asarray(m.spike_templates)[exp], minlength=nt)
-                    if not (np.array_equal(got, exp) and np.array_equal(cnt, exp_cnt)):
-                        inmem_ok = False
+                    out2.append(dict(counts=[int(x) for x in m.get_template_counts(c)],
+                                     cluster_spikes=[int(x) for x in m.get_cluster_spikes(c)],
+                                     template_spikes=[int(x) for x in m.get_template_spikes(c)]))
+                inplace_ok = True
                 # ... and after the assignment vector of the model was edited IN PLACE (merge: every spike of the
                 # highest cluster goes to cluster 0): the per-template queries still follow the stored templates,
                 # the per-cluster queries the edited vector
@@ -77,20 +76,20 @@ def impl(case):
                     cur[cur == hi] = 0
                     for c in sorted(set(case['cs']) | set(range(nt))):
                         if not np.array_equal(m2.get_cluster_spikes(c), A._spikes_in_clusters(cur, [c])):
-                            inmem_ok = False
+                            inplace_ok = False
                     for t in range(nt):
                         exp_t = np.nonzero(st_file == t)[0]
                         if not np.array_equal(m2.get_template_spikes(t), exp_t):
-                            inmem_ok = False
+                            inplace_ok = False
                     for c in case['cs']:
                         exp = np.nonzero(np.asarray(cur) == c)[0]
                         if not np.array_equal(m2.get_template_counts(c), np.bincount(st_file[exp], minlength=nt)):
-                            inmem_ok = False
+                            inplace_ok = False
                 finally:
                     m2.close()
             finally:
                 m.close()
-        return dict(res=out, nt=nt, inmem_ok=inmem_ok)
+        return dict(res=out, nt=nt, res_inmem=out2, inplace_ok=inplace_ok)
     raise ValueError(op)
 
 
@@ -98,6 +97,8 @@ def model_query(case, impl_res):
     q = {k: v for k, v in case.items() if not k.startswith('_') and k not in ('dtype', 'spec')}
     if case['op'] == 'spc':
         q['w'], q['signed'] = DT[case['dtype']]
+    if case['op'] == 'tcounts':
+        q['_second'] = dict(q, sc=case['sc'][::-1])
     return q
 
 
@@ -122,10 +123,12 @@ def judge(case, impl_res, ans):
         if ans['ok']['spec'] != m:
             return 'MACHINERY: model differs from its Lean spec (contradicts the theorem)'
         if sorted(ok) != m:      # dict: key order is not part of the property
-            return 'SPEC: groups differ from {cluster: increasing member spikes}'
+            return 'SPEC: groups differ from {cluster: its spike indices, or the supplied ids of its spikes, in increasing position order}'
         return None
     if op == 'gmean':
-        exp = [float(Fraction(s, n)) for s, n in m]
+        # the quotients are computed by the Lean model (`groupedMeanQ`, exact); the real code performs one
+        # float division per cluster, i.e. the correctly rounded exact quotient
+        exp = [DC.to_float(x) for x in ans['ok']['mean']]
         if ok != exp:
             return 'SPEC: grouped mean differs from sum/count per sorted cluster'
         return None
@@ -134,8 +137,13 @@ def judge(case, impl_res, ans):
             return 'MACHINERY: n_templates of the generated dataset'
         if ok['res'] != m:
             return 'SPEC: model query differs from the set-theoretic definition'
-        if ok.get('inmem_ok') is False:
-            return 'SPEC: model queries do not follow the array helpers after the assignments were changed in memory'
+        if 'err' in ans.get('second', {}):
+            return 'MACHINERY: driver error in the second query: %s' % ans['second']['err']
+        if ok['res_inmem'] != ans['second']['ok']['model']:
+            return 'SPEC: model queries do not follow the CURRENT assignments after they were changed in memory'
+        if ok.get('inplace_ok') is False:
+            return ('SPEC: after model.spike_clusters was edited in place (first load of the directory) the per-template '
+                    'queries no longer follow the stored templates / the per-cluster queries the edited vector')
         return None
     if ok != m:
         return 'SPEC: helper output differs from its set-theoretic definition'
@@ -161,7 +169,8 @@ def tally(rep, case, impl_res, ans):
             (case['spec'].get('dtypes') or {}).get('spike_templates', 'uint32')))
     if case['op'] == 'spc':
         rep.count('len:%s' % (len(case['sc']) if len(case['sc']) < 8 else '8+'))
-        rep.count('ids:%s' % ('given' if case.get('ids') is not None else 'none'))
+        ids = case.get('ids')
+        rep.count('ids:%s' % ('none' if ids is None else 'given, increasing' if ids == sorted(set(ids)) else 'given, unsorted or repeated'))
 
 
 def classify(case, impl_res, ans, why):
@@ -201,6 +210,9 @@ def gen(tier, rng):
                 c = dict(p=PID, op='spc', sc=list(sc), dtype=dt)
                 if k % 3 == 0:
                     c['ids'] = [100 + 3 * i for i in range(n)]
+                elif k % 3 == 1 and n >= 2:
+                    # supplied ids in arbitrary order, with repetitions: never sorted by the helper
+                    c['ids'] = [(7 * i + k) % 11 for i in range(n)]
                 yield c
             if n <= 5:
                 cl = [[7], [3, 0], [5, 2, 7], [9], [2, 2, 0]][k % 5]
@@ -254,6 +266,8 @@ def gen(tier, rng):
             c = dict(p=PID, op='spc', sc=sc, dtype=dt)
             if rng.random() < .5:
                 c['ids'] = sorted(rng.sample(range(5000), n))
+                if rng.random() < .4:
+                    rng.shuffle(c['ids'])
             yield c
         elif t == 1:
             cl = rng.sample(range(0, R), rng.randrange(1, 8 if R == 60 else 70)) + rng.sample(ids, rng.randrange(0, len(ids) + 1))
